@@ -11,7 +11,21 @@ BASELINE_OFF = ('cd /repo && env -u ELECTRUMX_VERIF /venv/bin/python -m pytest -
                 '-p no:cacheprovider --timeout=900 --continue-on-collection-errors')
 
 # id: (category, technique, level text, level note, design ref)
+_IDX_NOTE = ('Trusted: the fake plyvel stand-in (bound to real LevelDB by the conformance run), '
+             'the reference indexer; only the default schedule is used here (schedules: C06/C07).')
 CHECKS = {
+    'C01': ('exploration',
+            'exhaustive bounded enumeration of chains x flush schedules on the real sync pipeline',
+            'Every recipe sequence up to the length bound x every per-block flush directive (none, '
+            'history-only, full) x prefetch limits x reorg limits, plus fixed scenarios (prefix-'
+            'collision triple in every order, 262 flushes, a 253-tx block), each synced through the '
+            'real fetch_and_process_blocks under a hand-stepped loop; all UTXO observables compared '
+            'with a reference indexer after every full flush and at catch-up.', _IDX_NOTE, '3/C01'),
+    'C02': ('exploration',
+            'exhaustive bounded enumeration of chains x flush schedules on the real sync pipeline',
+            'Same enumeration as C01 with the history oracle: limited_history for every script and '
+            'every limit around the length, fs_tx_hash for every tx number, per-block tx hashes.',
+            _IDX_NOTE, '3/C02'),
     'C12': ('model_checking',
             'explicit-state BFS over the real MerkleCache + exhaustive input enumeration',
             'Every list length up to the bound with every index, classic and TSC, every cached-'
